@@ -118,6 +118,20 @@ def run(R):
             "cancel() without an error completes the batch with a BatchCancelledError",
             "cancel() without an error can complete the batch with error None: the batch then counts as flushed successfully and its items get the 'not set' AssertionError",
             ccfg.fmt_path(p) if p else None)
+    # ... and only then: an error the caller supplied is what the batch and its items are completed with
+    def none_edge(nd):
+        if nd.kind != "test":
+            return None
+        k, s, pos = q.atom_test(nd.ast)
+        if k == "isnone" and s == ep_c:
+            return "T" if pos else "F"
+        return None
+    if dflt:
+        p = kit.path_avoiding_guard(ccfg, dflt, none_edge, N)
+        R.check(p is None, "C11.CANCEL-NOOP", ca.qualname + ":given-error-kept", R.site(ca),
+                "the default BatchCancelledError replaces `%s` only when none was given" % ep_c,
+                "cancel(error) can replace the error it was given by a fresh BatchCancelledError: the batch and its items report a different exception than the one "
+                "the canceller supplied", ccfg.fmt_path(p) if p else None)
     common.exception_slot_types(R, "C11.CANCEL-NOOP", ("futures.FutureBase", "batching.BatchBase"))
     # ---- SWITCH-FIRST
     comp = bb.methods.get("_compute")
